@@ -51,7 +51,8 @@ try:
         lines = [l for l in c.stdout.splitlines() if l.startswith("VIOLATION")]
         meta["detected"][pr] = {"exit": c.returncode, "violations": len(lines),
                                 "first": [l[:300] for l in lines[:4]], "summary": c.stdout.strip().splitlines()[-1][:300] if c.stdout.strip() else c.stderr[-300:]}
-    nf = f"{src}/notes_{var}.md" if os.path.exists(f"{src}/notes_{var}.md") else f"{src}/notes.md"
+    nf = next((f for f in (f"{src}/notes_{var}.md", f"{src}/notes_ef.md" if var in "ef" else "", f"{src}/notes.md")
+               if f and os.path.exists(f)), "")
     notes = open(nf).read() if os.path.exists(nf) else ""
     meta["needs_to_manifest"] = notes[:3000]
 finally:
